@@ -153,7 +153,8 @@ Definition cor_matern (nu h : T) : T :=
     let x := nsqrt O nu *! h in
     let v := nexp O ((one -! nu) *! nln O two -! noracle O ORA_LOGGAMMA [nu] +! nu *! nln O x)
              *! noracle O ORA_KV [nu; x] in
-    let v := if isfinite v then v else zero in
+    (* non-finite products: kv overflows next to the origin (limit 1), the power overflows in the far field (limit 0) *)
+    let v := if isfinite v then v else if nltb O h one then one else zero in
     nmax v zero
   else nmax one zero.
 Definition cor_integral (nu h : T) : T :=
@@ -166,13 +167,15 @@ Definition cor_superspherical (nu h : T) : T :=
 Definition cor_hyperspherical (dim : Z) (h : T) : T :=
   cor_superspherical ((nofZ O dim -! one) /! two) h.
 Definition cor_jbessel (nu h : T) : T :=
-  if isclose0 h then one
+  if nltb O (nabs O h) (lit 1 3) then
+    (* power series next to the origin: 1 - x/(nu+1) * (1 - x/(2 nu + 4)), x = (h/2)^2 *)
+    let x := nsq (h /! two) in
+    one -! x /! (nu +! one) *! (one -! x /! (two *! nu +! lit 4 0))
   else noracle O ORA_GAMMA [nu +! one] *! noracle O ORA_JV [nu; h] /! npow O (h /! two) nu.
 
 (* ---------- tools/special.py tplstable_cor and the TPL classes *)
 Definition tplstable_cor (r len_scale hurst alpha : T) : T :=
   let r := nabs O (r /! len_scale) in
-  let r := if isclose0 r then zero else r in
   if nltb O zero r then
     two *! hurst /! alpha *! noracle O ORA_EXPN [one +! two *! hurst /! alpha; npow O r alpha]
   else one.
@@ -185,7 +188,7 @@ Definition tpl_var_factor (len_scale rescale len_low hurst : T) : T :=
 Definition tpl_correlation (len_scale rescale len_low hurst alpha r : T) : T :=
   let lu := (len_low +! len_scale) /! rescale in
   let ll := len_low /! rescale in
-  if isclose0 ll then tplstable_cor r (len_scale /! rescale) hurst alpha
+  if neqb O ll zero then tplstable_cor r (len_scale /! rescale) hurst alpha
   else (npow O lu (two *! hurst) *! tplstable_cor r lu hurst alpha
         -! npow O ll (two *! hurst) *! tplstable_cor r ll hurst alpha)
        /! (npow O lu (two *! hurst) -! npow O ll (two *! hurst)).
